@@ -699,6 +699,8 @@ RestorePers(id, res) ==
 Compact(res, R) ==
   /\ ~wtx.on
   /\ ("len0" \in DOMAIN R /\ ~IsErr(res)) => (R.len1 <= R.len0 /\ R.syncs <= 8 * (R.pages0 + 8))
+  \* the end state is a fixpoint (Compact.tla): compact() called again at once moves nothing and leaves the length alone
+  /\ ("again" \in DOMAIN R /\ ~IsErr(res)) => (R.again = Ok(FALSE) /\ R.len2 = R.len1)
   \* (after a reported storage error compact() is refused like every write; WHICH refusal it reports is not determined
   \* then: the savepoint registrations of a commit that failed stay in the tracker until the database is reopened)
   /\ IF latch # "ok" THEN IsErr(res)
